@@ -248,6 +248,11 @@ theorem build_eq_spec (E : Env) (ms : Methods) (hne : NoEmpty ms) (cs : List Cls
   simp only [Combo.get] at e1 e2 e3 e4
   rw [e1, e2, e3, e4]
 
+example : NoEmpty [([1], ⟨some ⟨7, .stop⟩, none, none, none⟩)] := by
+  intro k c h
+  by_cases hk : [1] = k <;> simp [lookup, hk] at h
+  subst h; rfl
+
 /-- the single-method fast path returns what the specification says -/
 theorem dflt_eq_spec (E : Env) (ms : Methods) (b : Body) (cs : List Cls)
     (hT : ∀ c, E.tC ∈ E.cpl c) (hlen : cs.length = E.n) (hd : dfltOf E.tC E.n ms = some b) :
@@ -286,6 +291,8 @@ theorem dflt_eq_spec (E : Env) (ms : Methods) (b : Body) (cs : List Cls)
       | nil => rw [hp] at hprim; simp at hprim
       | cons x r => simp [specRun, specArounds, specInner]
     · simp [hcond] at hd
+
+example : dfltOf 0 1 [([0], ⟨some ⟨1, .stop⟩, none, none, none⟩)] = some ⟨1, .stop⟩ := by decide
 
 /-- **A call equals the specification on the current table**, whatever is in the cache and
     whether or not the fast path is taken — provided the state satisfies the invariant. -/
@@ -352,6 +359,12 @@ theorem same_table_same_outcome (E : Env) (hT : ∀ c, E.tC ∈ E.cpl c)
     (htab : tableOf ops1 Table.empty = tableOf ops2 Table.empty) :
     (step E (run E Aux.init ops1) (.call cs)).2 = (step E (run E Aux.init ops2) (.call cs)).2 := by
   rw [dispatch_history_independent E hT ops1 cs hlen, dispatch_history_independent E hT ops2 cs hlen, htab]
+
+example : tableOf [.defmethod .primary [0] ⟨1, .stop⟩, .call [3], .defmethod .primary [0] ⟨2, .stop⟩] Table.empty
+    = tableOf [.defmethod .primary [0] ⟨2, .stop⟩] Table.empty := by
+  funext k q
+  simp only [tableOf, Table.set, Table.empty]
+  by_cases h : k = [0] ∧ q = Qual.primary <;> simp [h]
 
 theorem runOps_eq_specOuts (E : Env) (hT : ∀ c, E.tC ∈ E.cpl c) (a : Aux) (h : Inv E a)
     (ops : List Op) (hwf : WellFormed E ops) :
